@@ -87,9 +87,64 @@ fn lib_key_ids(p: &Packet) -> Option<(Vec<u8>, [u8; 8], Vec<u8>, [u8; 8])> {
     })
 }
 
+/// Key packets assembled by the harness for every curve the format names (fixtures exist for a
+/// few only): (description, framed packet).  Points of the curves the library computes with are
+/// genuine (taken from generated keys); the others are field-sized octet patterns.
+fn synthetic_curve_keys() -> Vec<(String, Vec<u8>)> {
+    use crate::reference::frame::frame_min;
+    let pubmat = |kind: KeyKind, sub: bool| -> Vec<u8> {
+        let cert = common::cert(kind, 1);
+        let body = if sub { cert.secret_subkeys[0].key.public_key().to_bytes() } else { cert.primary_key.public_key().to_bytes() }.expect("ser");
+        let d = codec::decode_packet(if sub { 14 } else { 6 }, &body).expect("own key decodes");
+        let Summary::Key(k) = &d.summary else { panic!("key") };
+        body[k.material.0..k.material.1].to_vec()
+    };
+    // (name, oid, point MPI incl. bit count) for ECDSA-shaped material
+    let mut curves: Vec<(String, Vec<u8>, Vec<u8>)> = Vec::new();
+    for (name, kind) in [("P-256", KeyKind::EcdsaP256V4), ("P-384", KeyKind::EcdsaP384V4), ("P-521", KeyKind::EcdsaP521V4), ("secp256k1", KeyKind::EcdsaK256V4)] {
+        let m = pubmat(kind, false);
+        let ol = m[0] as usize;
+        curves.push((name.to_string(), m[1..1 + ol].to_vec(), m[1 + ol..].to_vec()));
+    }
+    for (name, oid_tail, size) in [("brainpoolP256r1", 0x07u8, 32usize), ("brainpoolP384r1", 0x0B, 48), ("brainpoolP512r1", 0x0D, 64)] {
+        let oid = vec![0x2B, 0x24, 0x03, 0x03, 0x02, 0x08, 0x01, 0x01, oid_tail];
+        let mut point = vec![0x04u8];
+        point.extend((0..2 * size).map(|i| (i as u8).wrapping_mul(37).wrapping_add(oid_tail) | 1));
+        let bits = (point.len() * 8 - 5) as u16;
+        curves.push((name.to_string(), oid, [&bits.to_be_bytes()[..], &point[..]].concat()));
+    }
+    let mut out = Vec::new();
+    for (name, oid, mpi) in &curves {
+        for alg in [19u8, 18] {
+            for version in [4u8, 6] {
+                for tag in [6u8, 14] {
+                    let mut material = vec![oid.len() as u8];
+                    material.extend_from_slice(oid);
+                    material.extend_from_slice(mpi);
+                    if alg == 18 {
+                        material.extend_from_slice(&[3, 1, 8, 7]);
+                    }
+                    let mut body = vec![version, 0x65, 0x5E, 0x00, 0x01, alg];
+                    if version == 6 {
+                        body.extend_from_slice(&(material.len() as u32).to_be_bytes());
+                    }
+                    body.extend_from_slice(&material);
+                    out.push((format!("synthetic v{version} {} key (tag {tag}) on {name}", if alg == 18 { "ECDH" } else { "ECDSA" }), frame_min(tag, &body)));
+                }
+            }
+        }
+    }
+    out
+}
+
 fn run_fixture(c: &FixtureCase) -> Outcome {
     let path = Path::new(&c.file);
-    let Some(stream) = fixture_stream(path) else {
+    let stream = if let Some(hexed) = c.file.strip_prefix("synthetic:") {
+        hex::decode(hexed.rsplit(':').next().unwrap_or("")).ok()
+    } else {
+        fixture_stream(path)
+    };
+    let Some(stream) = stream else {
         return Outcome::trivial("not-openpgp");
     };
     let Ok(packets) = codec::split_packets(&stream) else {
@@ -107,7 +162,8 @@ fn run_fixture(c: &FixtureCase) -> Outcome {
     let Some((fp, kid, pfp, pkid)) = lib_key_ids(&packet) else {
         return Outcome::trivial("not-a-key");
     };
-    let short = c.file.strip_prefix("/repo/").unwrap_or(&c.file);
+    let short_owned: String = if c.file.starts_with("synthetic:") { c.file.split(':').take(2).collect::<Vec<_>>().join(":") } else { c.file.strip_prefix("/repo/").unwrap_or(&c.file).to_string() };
+    let short = &short_owned[..];
     let mut o = Outcome::ok("rfc-value");
     if fp != pfp || kid != pkid {
         o.push(
@@ -432,8 +488,8 @@ fn run_generated(c: &GenCase) -> Outcome {
                 v6: c.kind.is_v6(),
                 primary: if c.kind == KeyKind::EcdsaP256V4 { Alg::EcdsaP256 } else { Alg::Ed25519 },
                 subs: vec![
-                    Sub { alg: sign_alg, sign: true, encrypt: false, lock: 0 },
-                    Sub { alg: Alg::X25519, sign: false, encrypt: true, lock: 0 },
+                    Sub { alg: sign_alg, sign: true, encrypt: false, lock: 0, caps: 0 },
+                    Sub { alg: Alg::X25519, sign: false, encrypt: true, lock: 0, caps: 0 },
                 ],
                 lock: 0,
                 uids: 1,
@@ -625,10 +681,16 @@ pub fn check(ctx: &Ctx) {
         eprintln!("MACHINERY: fixture corpus under /repo/tests not found ({} key packets)", fc.len());
         std::process::exit(2);
     }
+    for k in [KeyKind::EcdsaP256V4, KeyKind::EcdsaP384V4, KeyKind::EcdsaP521V4, KeyKind::EcdsaK256V4] {
+        common::cert(k, 1);
+    }
+    for (desc, framed) in synthetic_curve_keys() {
+        fc.push(FixtureCase { file: format!("synthetic:{desc}:{}", hex::encode(framed)), index: 0 });
+    }
     ctx.run_space(
         "fixture_keys",
         true,
-        "every key packet (tags 5,6,7,14) of every OpenPGP file under /repo/tests that the library parses: fingerprint and key id = reference value computed from the wire bytes of the public part (v4 SHA-1/0x99, v6 SHA-256/0x9B, v3 MD5 over MPI values; canonical encodings only), identical for the secret packet and its public half, unchanged after re-serialisation and re-parsing",
+        "every key packet (tags 5,6,7,14) of every OpenPGP file under /repo/tests that the library parses, plus key packets assembled by the harness for ECDSA and ECDH on every named curve (P-256/384/521, secp256k1, brainpoolP256r1/P384r1/P512r1) x v4/v6 x primary/subkey: fingerprint and key id = reference value computed from the wire bytes of the public part (v4 SHA-1/0x99, v6 SHA-256/0x9B, v3 MD5 over MPI values; canonical encodings only), identical for the secret packet and its public half, unchanged after re-serialisation and re-parsing",
         fc.into_par_iter(),
         run_fixture,
     );
